@@ -305,6 +305,9 @@ def thread_build(seed, i, tier):
                 ops.append({"h": h, "name": "$buffered_block", "args": [name, args]})
             elif buffered_fam and roll < 0.33:
                 ops.append({"h": h, "name": "$setcap", "args": [rs.choice([0, 1, 50, 10**6])]})
+            elif roll < 0.36:
+                # open an object on a NEW file that other threads open at the same time, and write through it
+                ops.append({"h": h, "name": "$construct_new", "args": [f"new{rs.randrange(2)}.json", fresh.int()]})
             elif roll < 0.40:
                 ops.append({"h": h, "name": "$construct", "args": []})
             elif roll < 0.45:
@@ -316,6 +319,12 @@ def thread_build(seed, i, tier):
                 name, args = _thr.gen_thread_op(rs, fresh, kind, c)
                 ops.append({"h": h, "name": name, "args": args})
         progs.append(ops)
+    if rs.random() < 0.15:
+        # constructor race: every thread opens an object on the SAME new file and writes through it
+        fname = f"new{rs.randrange(2)}.json"
+        progs = [[{"h": rs.randrange(nobj), "name": "$construct_new", "args": [fname, fresh.int()]}] +
+                 ([{"h": rs.randrange(nobj), "name": "$construct_new", "args": [fname, fresh.int()]}] if rs.random() < 0.4 else [])
+                 for _ in range(nthreads)]
     # re-binding the filename of an object that ANOTHER thread is using at the same time is a race on the object
     # itself (the statement is about OTHER objects still bound to the old file): keep $rebind only on private objects
     for t, ops in enumerate(progs):
@@ -352,6 +361,13 @@ def _special_ops():
         if name == "$construct":
             o = type(n)(filename=n.filename)
             return len(o)
+        if name == "$construct_new":
+            o = type(n)(filename=os.path.join(os.path.dirname(n.filename), a[0]))
+            if isinstance(o._data, dict):
+                o["k%d" % a[1]] = a[1]
+            else:
+                o.append(a[1])
+            return len(o)
         if name == "$rebind":
             n.filename = os.path.join(os.path.dirname(n.filename), a[0])
             return None
@@ -369,6 +385,9 @@ def thread_judge(out):
     leaked = [r for r in out["history"] if r.get("leaked")]
     if leaked or out["held_after"]:
         return {"kind": "lock_leak", "msg": f"lock still held after an operation returned: {leaked[0]['leaked'] if leaked else out['held_after']} | {_thr.describe_history(out)}"}
+    broken = [r for r in out["history"] if r.get("exc") == "RuntimeError" and "un-acquired lock" in str(r["exc_obj"].exc)]
+    if broken:
+        return {"kind": "lock_protocol_error", "msg": f"an operation released a lock it does not hold (its lock was replaced under it): {_thr.describe_history(out)}"}
     return None
 
 
